@@ -537,6 +537,24 @@ def hardening_events(ctx, quick):
             else:
                 ev.append({"op": "Pred", "kind": "contains", "q": list(q), "ps": [list(p)], "res": Q.contains(P)})
                 ev.append({"op": "Pred", "kind": "count", "q": list(q), "ps": [list(p)], "res": P.count_occurrences_in(Q)})
+    # -- (f) searches abandoned half way (KeyboardInterrupt inside the library, also while the search table of the pattern is
+    #        being made) and the same pattern object used again: the abandoned call is no event, the later ones are judged as ever
+    nint = 0
+    for _ in range(60 if quick else 600):
+        p = util.rand_perm(rnd, rnd.choice([2, 3, 3, 4, 5]))
+        P = Perm(p)
+        ev.append({"op": "New", "p": list(p)})
+        for _ in range(3):
+            q = special_perm(rnd, rnd.randint(len(p), len(p) + 3))
+            Q = Perm(q)
+            st, _ = util.interrupted_call(lambda: (list(P.occurrences_in(Q)), Q.contains(P)), rnd.choice([1, 2, 3, 4, 6, 9, 14, 22, 35, 60, 100]),
+                                          suffixes=("permuta/patterns/",))
+            nint += st == "interrupted"
+            q2 = special_perm(rnd, rnd.randint(0, 7))
+            ev.append({"op": "Search", "q": list(q2), "res": _occ(P, Perm(q2)), "tabok": True})
+            ev.append({"op": "Search", "q": list(q), "res": _occ(P, Q), "tabok": True})
+            ev.append({"op": "Pred", "kind": "count", "q": list(q), "ps": [list(p)], "res": Q.count_occurrences_of(P)})
+    ctx.note("searches_abandoned_half_way", nint)
     # -- (e) a fresh interpreter whose very first call is a large query
     ev.extend(_cold_start_events(rnd, 4 if quick else 16))
     ev.extend(long_events(ctx, quick))
